@@ -141,6 +141,16 @@ theorem C18_flatten_build (rfc : Bool) (ord : List (Str × Str) → List (Str ×
   obtain ⟨m, h1, h2, _⟩ := flatten_build rfc ord hord pvs S hd hp hc hu
   exact ⟨m, h1, h2⟩
 
+/-- The same without tombstones, in its most readable form: for every `consistent`, key-uniform
+    set of live path/values, handed over in **any order** and for every key-map order, the document
+    reads back as exactly the expected leaves, none twice. -/
+theorem C18_flatten_build_live (rfc : Bool) (ord : List (Str × Str) → List (Str × Str)) (hord : IsOrder ord)
+    (S : List Entry) (hc : consistent rfc S = true) (hu : uniformKeys (S.map (·.1)) = true) :
+    ∃ m, buildTree rfc ord (S.map Entry.toPV) = .ok (.obj m) ∧
+      (∀ y, y ∈ flattenDoc (schemaOf (S.map (·.1))) (.obj m) ↔ Expected rfc S y) ∧
+      ((flattenDoc (schemaOf (S.map (·.1))) (.obj m)).map (·.1)).Nodup :=
+  flatten_build_live rfc ord hord S hc hu
+
 /-- List entries are identified by their full key sets, for every key-map order: under the same
     preconditions the flattener reads no path twice.  An entry split over two items would yield
     its key leaves twice; together with `C18_flatten_build` (every leaf is read under exactly the
@@ -164,6 +174,33 @@ theorem C18_entries_by_full_keyset (rfc : Bool) (ord : List (Str × Str) → Lis
     · obtain ⟨v, j, hv, hj⟩ := (mem_explicitPaths rfc S y.1).1 hex
       exact ⟨j, (h2 (y.1, j)).2 (Or.inl ((mem_explicitLeaves rfc S y.1 j).2 ⟨v, hv, hj⟩))⟩
     · exact ⟨y.2, (h2 y).2 (Or.inr ⟨(mem_impliedLeaves S y).2 ⟨x, hx, hy⟩, hex⟩)⟩
+
+/-- The property end to end, with pruning read at *element boundaries* (the part that holds): if
+    no deleted path is a textual prefix of a sibling (`noSiblingPrefix`), the document holds exactly
+    the leaves that are neither deleted nor below a deleted node — `S` is what the declarative,
+    element-boundary pruning leaves.  Without `noSiblingPrefix` this is false of code and twin
+    alike: `C18_document_full_fails`, known finding KF-C18-prune-textual. -/
+theorem C18_document_is_configuration_partial (rfc : Bool) (ord : List (Str × Str) → List (Str × Str))
+    (hord : IsOrder ord) (pvs : List PV) (S : List Entry)
+    (hd : pathsDistinct pvs = true) (hs : noSiblingPrefix pvs = true)
+    (hp : pruneSpec boundaryPrefix false pvs = S.map Entry.toPV)
+    (hc : consistent rfc S = true) (hu : uniformKeys (S.map (·.1)) = true) :
+    ∃ m, buildTree rfc ord pvs = .ok (.obj m) ∧
+      (∀ y, y ∈ flattenDoc (schemaOf (S.map (·.1))) (.obj m) ↔ Expected rfc S y) ∧
+      ((flattenDoc (schemaOf (S.map (·.1))) (.obj m)).map (·.1)).Nodup :=
+  flatten_build rfc ord hord pvs S hd
+    (by rw [C18_prune_exact_partial pvs false hd (by simp) hs]; exact hp) hc hu
+
+/-- negation witness for the end-to-end statement without `noSiblingPrefix`: with the tombstone
+    `/a/b` the live sibling `/a/bc` is expected (element-boundary pruning keeps it, the set is
+    consistent) but the document built is empty. -/
+theorem C18_document_full_fails :
+    pathsDistinct witnessPrune = true ∧
+    pruneSpec boundaryPrefix false witnessPrune =
+      [(([{ name := "a".toList, keys := [] }, { name := "bc".toList, keys := [] }], Val.str "v".toList) : Entry)].map Entry.toPV ∧
+    consistent true [([{ name := "a".toList, keys := [] }, { name := "bc".toList, keys := [] }], Val.str "v".toList)] = true ∧
+    buildTree true id witnessPrune = .ok (.obj []) := by
+  decide
 
 /-- The document never depends on the order in which Go ranges over a key map: any two
     iteration orders give the same result (document or error) for *every* input, well-formed or
